@@ -29,6 +29,7 @@ import (
 	"math/rand"
 	"os"
 	"runtime"
+	"runtime/debug"
 	"sort"
 	"strings"
 	"sync"
@@ -160,9 +161,14 @@ func (c *vcfsConc) call(w int, ev vcfsEvent, f func(ev vcfsEvent)) {
 	c.events = append(c.events, ev)
 	c.mu.Unlock()
 	res := vcfsEvent{}
-	var pan interface{}
+	var pan *vcfsPanic
 	func() {
-		defer func() { pan = recover() }()
+		defer func() {
+			if p := recover(); p != nil {
+				a := vcfsAttribute(p, debug.Stack())
+				pan = &a
+			}
+		}()
 		f(res)
 	}()
 	c.mu.Lock()
@@ -170,7 +176,7 @@ func (c *vcfsConc) call(w int, ev vcfsEvent, f func(ev vcfsEvent)) {
 		ev[k] = v
 	}
 	if pan != nil {
-		c.events = append(c.events, vcfsEvent{"ev": "panic", "id": id, "what": fmt.Sprint(pan)})
+		c.events = append(c.events, vcfsEvent{"ev": "panic", "id": id, "what": pan.what, "incode": pan.inCode, "at": pan.at})
 	} else {
 		c.events = append(c.events, vcfsEvent{"ev": "ret", "id": id})
 	}
@@ -969,7 +975,112 @@ func vcfsRunDirOnce(scn vcfsConcScenario, rep int) []vcfsEvent {
 	return c.events
 }
 
+// mode "lockorder": Rename against a top-down reader.  Readdir of the root holds the root's read
+// lock while it takes each child's lock in turn; Rename("d/x","e/x") needs d, e and the root.  The
+// driver holds the lock of the regular file a, so Readdir stops somewhere in the root (before or
+// after having visited d: Go's map order decides), then starts the Rename, waits until it is
+// parked too (or has returned), and lets go of a.  With locks taken root-first Rename holds nothing
+// while it waits for the root, and everything finishes; whatever happens is judged as usual, and a
+// run in which nobody can move any more ends with the watchdog's deadlock event.
+func vcfsRunLockOrderOnce(scn vcfsConcScenario, rep int) []vcfsEvent {
+	base := vcfsScenario{ID: scn.ID, BS: 4, RSeed: scn.RSeed + int64(rep), Mode: "lockorder"}
+	c := &vcfsConc{vcfsRun: vcfsNewRun(base), lastRet: time.Now()}
+	maxBlockSize = 4
+	concurrentWriters = 4
+	c.keep.onDone = func(p *vcfsPut, ok bool) { c.log(vcfsEvent{"ev": "putb", "k": p.K, "ok": ok, "n": len(p.Data)}) }
+	if c.start(vcfsEvent{"rep": rep}) != nil {
+		return c.events
+	}
+	hs0 := map[int]File{}
+	c.exec(0, hs0, vcfsOp{Op: "mkdir", P: []string{"d"}})
+	c.exec(0, hs0, vcfsOp{Op: "mkdir", P: []string{"e"}})
+	c.exec(0, hs0, vcfsOp{Op: "open", H: 1, P: []string{"a"}, Acc: "rw", Cr: true})
+	c.exec(0, hs0, vcfsOp{Op: "open", H: 2, P: []string{"d", "x"}, Acc: "rw", Cr: true})
+	c.exec(0, hs0, vcfsOp{Op: "write", H: 2, D: "xy"})
+	c.snap()
+	cfs, ok1 := c.fs.(*collectionFileSystem)
+	var fa *filenode
+	if ok1 {
+		if root, ok := cfs.fileSystem.root.(*dirnode); ok {
+			root.RLock()
+			fa, _ = root.inodes["a"].(*filenode)
+			root.RUnlock()
+		}
+	}
+	var wg sync.WaitGroup
+	gids := map[string]bool{}
+	var gmu sync.Mutex
+	run := func(w int, op vcfsOp) string {
+		started := make(chan string, 1)
+		wg.Add(1)
+		go func() {
+			defer wg.Done()
+			g := vcfsGoID()
+			gmu.Lock()
+			gids[g] = true
+			gmu.Unlock()
+			started <- g
+			c.exec(w, map[int]File{}, op)
+			gmu.Lock()
+			delete(gids, g)
+			gmu.Unlock()
+		}()
+		return <-started
+	}
+	parkedOrDone := func(g string) {
+		for i := 0; i < 3000; i++ {
+			gmu.Lock()
+			running := gids[g]
+			gmu.Unlock()
+			st := vcfsGoState(g)
+			if !running || strings.Contains(st, "Lock") || strings.Contains(st, "semacquire") {
+				return
+			}
+			time.Sleep(time.Millisecond)
+		}
+	}
+	if fa != nil {
+		fa.Lock()
+		g1 := run(1, vcfsOp{Op: "readdir", P: []string{}})
+		parkedOrDone(g1)
+		g2 := run(2, vcfsOp{Op: "rename", P: []string{"d", "x"}, Q: []string{"e", "x"}})
+		parkedOrDone(g2)
+		fa.Unlock()
+	} else {
+		c.mu.Lock()
+		c.events[0]["inapplicable"] = true // the tree is not made of dirnode / filenode any more
+		c.mu.Unlock()
+	}
+	done := make(chan struct{})
+	go func() { wg.Wait(); close(done) }()
+	if c.quiet(done, func() []string {
+		gmu.Lock()
+		defer gmu.Unlock()
+		out := []string{}
+		for g := range gids {
+			out = append(out, g)
+		}
+		return out
+	}) {
+		c.finalChecks()
+	}
+	return c.events
+}
+
 func vcfsRunDirSched(scn vcfsConcScenario) []vcfsEvent {
+	if scn.Mode == "lockorder" {
+		var all []vcfsEvent
+		for rep := 0; rep < scn.Reps; rep++ {
+			evs := vcfsRunLockOrderOnce(scn, rep)
+			all = append(all, evs...)
+			for _, ev := range evs {
+				if ev["ev"] == "deadlock" {
+					return all // one proven deadlock is enough; each costs the full deadline
+				}
+			}
+		}
+		return all
+	}
 	var all []vcfsEvent
 	reps := scn.Reps
 	if reps < 1 {
@@ -1001,7 +1112,7 @@ func TestVerifC13(t *testing.T) {
 		var evs []vcfsEvent
 		if s.Mode == "schedule" {
 			evs = vcfsRunSchedule(*s)
-		} else if s.Mode == "dirsched" {
+		} else if s.Mode == "dirsched" || s.Mode == "lockorder" {
 			evs = vcfsRunDirSched(*s)
 		} else {
 			evs = vcfsRunConcRandom(*s)
